@@ -232,3 +232,62 @@ def save_replay(pid, seed, n, payload):
     with open(p, 'w') as f:
         json.dump(payload, f, default=str)
     return p
+
+
+# ---------------------------------------------------------------------------------------------------------------
+# table validation of pure operators (Cases.tla)
+
+def harness_path(build_dir, name):
+    return os.path.join(os.path.dirname(build_dir), 'harness', name)
+
+
+def run_harness(build_dir, mode, lines, timeout=600):
+    """feed lines to wirecase <mode>; returns list of parsed JSON outputs (None for a line the harness died on)"""
+    env = dict(os.environ)
+    env['ASAN_OPTIONS'] = 'detect_leaks=0:abort_on_error=0'
+    env['UBSAN_OPTIONS'] = 'print_stacktrace=1:halt_on_error=1'
+    env['DBUS_FATAL_WARNINGS'] = '0'
+    out = []
+    i = 0
+    crashes = []
+    while i < len(lines):
+        p = subprocess.run([harness_path(build_dir, 'wirecase'), mode], input='\n'.join(lines[i:]) + '\n',
+                           stdout=subprocess.PIPE, stderr=subprocess.PIPE, env=env, text=True, timeout=timeout)
+        got = [json.loads(x) for x in p.stdout.splitlines() if x.startswith('{')]
+        out += got
+        i += len(got)
+        if i < len(lines) and p.returncode != 0:
+            # the harness died on lines[i]: sanitizer report / assertion / abort
+            crashes.append((i, p.stderr[-3000:]))
+            out.append(None)
+            i += 1
+        elif i < len(lines):
+            raise Broken('harness produced %d outputs for %d inputs: %s' % (len(got), len(lines) - i, p.stderr[-500:]))
+    return out, crashes
+
+
+def check_cases(cases, shard=4000, jobs=None, timeout=900):
+    """cases: list of dicts (NDJSON records for Cases.tla). returns list of indices TLC flags as bad."""
+    jobs = jobs or max(2, NCPU - 2)
+    wd = scratch()
+    bad = []
+    try:
+        shards = [cases[i:i + shard] for i in range(0, len(cases), shard)]
+
+        def one(k):
+            path = os.path.join(wd, 's%04d.ndjson' % k)
+            with open(path, 'w') as f:
+                for c in shards[k]:
+                    f.write(json.dumps(c, separators=(',', ':')) + '\n')
+            rc, out = tlc(os.path.join(wd, 't%04d' % k), 'Cases.tla', 'Cases.cfg', timeout, env={'CASES': path}, workers=1,
+                          xmx='3g')
+            m = re.search(r'"CASES", (\d+)', out)
+            if not m or int(m.group(1)) != len(shards[k]) or 'No error has been found' not in out:
+                raise Broken('Cases.tla failed on shard %d:\n%s' % (k, out[-3000:]))
+            return [k * shard + int(x) - 1 for x in re.findall(r'"BADCASE", (\d+)', out)]
+        with ThreadPoolExecutor(max_workers=jobs) as ex:
+            for r in ex.map(one, range(len(shards))):
+                bad += r
+    finally:
+        shutil.rmtree(wd, ignore_errors=True)
+    return bad
